@@ -102,6 +102,14 @@ def promoted_summary(body, idx):
             l = ll
             continue
         if rv["k"] == "agg" and rv.get("agg") == "adt":
+            inner = []
+            for o in rv.get("ops", []):
+                ll = op_local(o)
+                r2 = defs.get(ll) if ll is not None else None
+                if r2 is not None and r2["k"] == "agg" and r2.get("agg") == "adt":
+                    inner.append(("variant", r2.get("adt"), r2.get("variant")))
+            if inner:        # `Some(Mode::X)`: the payload is part of the constant
+                return ("variant", rv.get("adt"), rv.get("variant"), tuple(inner))
             return ("variant", rv.get("adt"), rv.get("variant"))
         return None
     return None
